@@ -3,10 +3,14 @@
 mod absval;
 mod gen;
 mod jtree;
+mod ops_enc;
 mod ops_json;
 mod ops_time;
+mod ops_total;
 mod ops_zinc;
 mod util;
+mod worker;
+mod ops_filter;
 
 use serde_json::{json, Value as J};
 use util::{read_lines, silence_panics, Out};
@@ -15,13 +19,15 @@ fn arg(args: &[String], name: &str) -> Option<String> {
     args.iter().position(|a| a == name).and_then(|i| args.get(i + 1).cloned())
 }
 
-fn dispatch(vec: &J, out: &mut Out) -> Result<(), String> {
+fn dispatch(vec: &J, out: &mut Out, wk: &mut Option<worker::Worker>) -> Result<(), String> {
     let op = vec["op"].as_str().unwrap_or("");
     let dom = op.split('.').next().unwrap_or("");
     match dom {
         "zinc" => ops_zinc::run(vec).map(|e| out.emit(e)),
         "hayson" => ops_json::run(vec).map(|e| out.emit(e)),
+        "enc" => ops_enc::run(vec).map(|e| out.emit(e)),
         "time" => ops_time::run(vec, out),
+        "dec" | "stab" => ops_total::run(vec, out, wk.get_or_insert_with(worker::Worker::new)),
         _ => Err(format!("unknown op {op}")),
     }
 }
@@ -33,13 +39,22 @@ fn main() {
         std::process::exit(2);
     }
     silence_panics();
+    if args[1] == "worker" {
+        worker::worker_main(ops_total::worker_handle);
+        return;
+    }
+    if args[1] == "bomb-child" {
+        ops_total::bomb_child(&args[2]);
+        return;
+    }
     let out_path = arg(&args, "--out").expect("--out");
     let mut out = Out::create(&out_path);
     match args[1].as_str() {
         "run" => {
             let vectors = read_lines(&arg(&args, "--in").expect("--in"));
+            let mut wk: Option<worker::Worker> = None;
             for v in &vectors {
-                match dispatch(v, &mut out) {
+                match dispatch(v, &mut out, &mut wk) {
                     Ok(()) => {}
                     Err(e) => {
                         eprintln!("TOOL-ERROR: {e} on vector {v}");
@@ -62,6 +77,7 @@ fn main() {
                         out.emit(ops_zinc::zinc_rt(&v, &vj));
                     }
                 }
+                "fuzz" => ops_total::rec_fuzz(&mut out, seed, n),
                 "time" => {
                     let per_zone: usize = arg(&args, "--per-zone").and_then(|s| s.parse().ok()).unwrap_or(8);
                     ops_time::rec(&mut out, seed, per_zone);
